@@ -229,6 +229,11 @@ def step (s : State) (line : String) : State × String :=
     (match Rule.ofName d, parseRules rs with
      | some d, some rs => let r := State.fresh s.cfg d rs; (r.1, renderAns (.ofExcept (fun _ => .unit) r.2))
      | _, _ => (s, "bad-op"))
+  | ["deleteu", ps] => let r := s.deleteUnchecked (unxList ps); (r.1, renderAns (.ofExcept (fun _ => .unit) r.2))
+  | ["addruleram", a, r] =>
+    (match Rule.ofName r with
+     | some r => let x := s.addRule (unx a) r false; (x.1, renderAns (.ofExcept .report x.2))
+     | none => (s, "bad-op"))
   | "?" :: q => (match parseQuery q with
      | some qq => (s, renderAns (s.ask qq))
      | none => (s, helperQuery q))
